@@ -181,9 +181,11 @@ func vReap(dir string, sh vShape) error {
 // vCrashScenario builds the store of the shape, lets the reap die at a chosen crash point (or
 // not at all) and then up to `repairs` start-up repairs die at chosen crash points as well. It
 // returns the store directory and the view before the reap; crashes counts the deaths.
-func vCrashScenario(sh vShape, repairs int) (root, dir string, pre vView, crashes int) {
+func vCrashScenario(sh vShape, repairs int, insideInRepair bool) (root, dir string, pre vView, crashes int) {
 	root = vNewRoot("r")
 	vPlanMissing = false
+	vCr.atomicOnly = false
+	defer func() { vCr.atomicOnly = false }()
 	dir = vBuildStore(root, sh)
 	pre = vObserve(dir)
 	verifAssert("C07-world-is-a-valid-store", pre.ok && pre.crcOK && pre.index == 20+10*uint64(sh.incs))
@@ -211,6 +213,7 @@ func vCrashScenario(sh vShape, repairs int) (root, dir string, pre vView, crashe
 			verifReach("died-after-first-mutation")
 		}
 	}
+	vCr.atomicOnly = !insideInRepair
 	for i := 0; i < repairs; i++ {
 		n2 := vCountPoints(func() { vBareStore(dir).check() })
 		if i == 0 && verifSymbolic() {
@@ -222,9 +225,6 @@ func vCrashScenario(sh vShape, repairs int) (root, dir string, pre vView, crashe
 		}
 		verifAssume(vRunCrash(k, func() { vBareStore(dir).check() }))
 		crashes++
-		if verifSymbolic() {
-			println("CAT", i, len(vPartialLog), vCr.inside)
-		}
 		if i == 0 {
 			verifReach("crash-during-repair")
 		} else {
@@ -239,7 +239,7 @@ func vCrashScenario(sh vShape, repairs int) (root, dir string, pre vView, crashe
 func VerifC07Crash() {
 	verifPanicsAreViolations()
 	sh := vChooseShape()
-	root, dir, pre, _ := vCrashScenario(sh, 1)
+	root, dir, pre, _ := vCrashScenario(sh, 1, verifTier() > 0)
 	defer vDropRoot(root)
 
 	// the next start of the store
@@ -268,7 +268,7 @@ func VerifC07Chain() {
 	sh.older = verifChoice("older", 2)
 	sh.fullWALs = verifChoice("fullWALs", 2)
 	sh.incs = 1 + verifChoice("incs", 2)
-	root, dir, pre, crashes := vCrashScenario(sh, 2)
+	root, dir, pre, crashes := vCrashScenario(sh, 2, false)
 	defer vDropRoot(root)
 	verifAssume(crashes == 3)
 	err := vBareStore(dir).check()
@@ -281,7 +281,7 @@ func VerifC07Chain() {
 // half-way leaves a store that does not look like before.
 func VerifC07Twin() {
 	sh := vShape{walsPerInc: 1, older: 1, fullWALs: 1, incs: 1}
-	root, dir, pre, crashes := vCrashScenario(sh, 0)
+	root, dir, pre, crashes := vCrashScenario(sh, 0, false)
 	defer vDropRoot(root)
 	verifAssume(crashes == 1)
 	vCheckRecovered(dir, pre, "twin")
